@@ -23,6 +23,8 @@ import Golib.Logger.CalRealLemmas
 import Golib.Logger.CacheHMap
 import Golib.Logger.Concurrent
 import Golib.Logger.HistoryLemmas
+import Golib.Logger.RefreshLemmas
+import Golib.Logger.FilesLemmas
 
 namespace C17
 open Logger
@@ -407,6 +409,124 @@ theorem table_over_histories :
   ⟨table_after_new_ids, fun c l hn hne hb hl k hk => ids_forgotten c l hn hne hb hl k hk,
    fun pre young i v ps hn hi hps hlen hroom => id_survives pre young i v ps hn hi hps hlen hroom⟩
 
+/-! ## a resident id logged again (round 7: "update of a known key while the table is full") -/
+
+/-- a `Put` of an id the table holds — at ANY fill level, so also when the table is full — forgets
+    nothing: the same ids in the same places, the same length, the id's own time replaced, every
+    other id's time unchanged -/
+theorem refresh_forgets_nothing (c : Cache) (k : Bytes) (v : Int) (hn : (HMap.AL.keys c).Nodup) (hne : k ≠ [])
+    (hk : k ∈ HMap.AL.keys c) :
+    HMap.AL.keys (cachePut c k v) = HMap.AL.keys c ∧ (cachePut c k v).length = c.length ∧
+    cacheGet (cachePut c k v) k = v ∧ ∀ j, j ≠ k → cacheGet (cachePut c k v) j = cacheGet c j :=
+  refresh_cache v hn hne hk
+
+/-- … over histories: after ANY history of a fresh logger (table full or not), a log call whose
+    rate id `i` is resident — written because its interval is over, or suppressed — leaves the table
+    with the same ids in the same places, and every later call with a different id is decided
+    (written / suppressed) exactly as it would have been without that call -/
+theorem refresh_in_history (cal : Cal) (st0 : St) (ops : List Op) (h0 : st0.cache = [])
+    (t : Int) (m : Meth) (id msg i : Bytes)
+    (hid : m.rateId id (if m.ln then msg ++ [cNl] else msg) = some i)
+    (hk : i ∈ HMap.AL.keys (run cal st0 ops).cache) (hne : i ≠ []) :
+    let st := run cal st0 ops
+    let st' := run cal st0 (ops ++ [.log t m id msg])
+    HMap.AL.keys st'.cache = HMap.AL.keys st.cache ∧
+    (∀ j, j ≠ i → cacheGet st'.cache j = cacheGet st.cache j) ∧
+    ∀ (t' : Int) (m' : Meth) (id' msg' j : Bytes),
+      m'.rateId id' (if m'.ln then msg' ++ [cNl] else msg') = some j → j ≠ i →
+      (logDecide t' m' id' msg' st').1 = (logDecide t' m' id' msg' st).1 := by
+  intro st st'
+  have e : st' = (logCall t m id msg st).1 := by
+    show run cal st0 (ops ++ [.log t m id msg]) = _
+    rw [run_append]; rfl
+  rw [e]
+  exact refresh_step t m id msg i st (run_cache_nodup cal st0 ops h0) hid hk hne
+
+/-! ## logger.LogLevel (the `log_level` setting of ApplyConfig) -/
+
+/-- `LogLevel`: case-insensitive (ASCII) "error" ↦ 3, "info" ↦ 1, "debug" ↦ 0, and everything else —
+    "warn" included — ↦ WARN(2); each value exactly for its word -/
+theorem log_level_table (s : Bytes) :
+    (logLevel s = 3 ↔ s.map lower = asc "error") ∧ (logLevel s = 1 ↔ s.map lower = asc "info") ∧
+    (logLevel s = 0 ↔ s.map lower = asc "debug") ∧
+    (logLevel s = 2 ↔ (s.map lower ≠ asc "error" ∧ s.map lower ≠ asc "info" ∧ s.map lower ≠ asc "debug")) := by
+  have d1 : asc "error" ≠ asc "warn" := by decide
+  have d2 : asc "error" ≠ asc "info" := by decide
+  have d3 : asc "error" ≠ asc "debug" := by decide
+  have d4 : asc "warn" ≠ asc "info" := by decide
+  have d5 : asc "warn" ≠ asc "debug" := by decide
+  have d6 : asc "info" ≠ asc "debug" := by decide
+  unfold logLevel
+  simp only []
+  by_cases h1 : s.map lower = asc "error"
+  · simp [h1, d2, d3]
+  · by_cases h2 : s.map lower = asc "warn"
+    · simp [h2, d1.symm, d4, d5]
+    · by_cases h3 : s.map lower = asc "info"
+      · simp [h3, d2.symm, d4.symm, d6]
+      · by_cases h4 : s.map lower = asc "debug"
+        · simp [h4, d3.symm, d5.symm, d6.symm]
+        · simp [h1, h2, h3, h4]
+
+/-! ## GetLogFiles / GetLogFilePath -/
+
+/-- `GetLogFiles`, exactly, when no entry makes it panic: the first 100 listable entries of the
+    directory in `ReadDir` order with their sizes; and whatever it returns, every listed pair is a
+    regular file of the directory with its size, named `whatap-hook.log` or `logID-oname-` + exactly
+    8 bytes up to the first dot -/
+theorem log_files_exact (logID oname : Bytes) (ents : List DirEnt) :
+    ((∀ e ∈ ents, filesVerdict logID oname e ≠ .panic) →
+      logFiles logID oname ents =
+        some (((ents.filter (listable logID oname)).take 100).map entPair)) ∧
+    (∀ out, logFiles logID oname ents = some out → ∀ p ∈ out, ∃ e ∈ ents, p = (e.name, e.size) ∧ e.isDir = false ∧
+      (e.name = hookName ∨ ((filesPrefix logID oname) <+: e.name ∧
+        indexDot e.name = some ((filesPrefix logID oname).length + 8)))) := by
+  refine ⟨logFiles_closed logID oname ents, ?_⟩
+  intro out h p hp
+  obtain ⟨e, he, hpe, hv⟩ := logFilesLoop_sound logID oname ents 0 out h p hp
+  exact ⟨e, he, hpe, (listed_shape logID oname e hv).1, (listed_shape logID oname e hv).2⟩
+
+/-- no dot in the log id and the object name ⇒ `GetLogFiles` cannot panic, whatever the directory holds -/
+theorem log_files_total (logID oname : Bytes) (h1 : cDot ∉ logID) (h2 : cDot ∉ oname) (ents : List DirEnt) :
+    logFiles logID oname ents = some (((ents.filter (listable logID oname)).take 100).map entPair) :=
+  logFiles_closed logID oname ents (fun e _ => filesVerdict_no_panic logID oname h1 h2 e)
+
+/-- observed, outside the statement: a dot in the object name makes `GetLogFiles` panic on the
+    logger's own file (`name[len(prefix)+1 : x]` with the first dot inside the prefix) -/
+theorem finding_logfiles_dot :
+    logFiles (asc "whatap") (asc "x.y") [⟨asc "whatap-x.y-20240310.log", false, 5⟩] = none := by decide
+
+/-- the logger's own file of day `u` (real dates, 2000–2099) is listable, whatever its size -/
+theorem log_files_own_current (logID oname : Bytes) (u : Nat) (h : u < 36525) (sz : Int)
+    (h1 : cDot ∉ logID) (h2 : cDot ∉ oname) :
+    filesVerdict logID oname ⟨fileName Cal.c19 logID oname true (u : Int), false, sz⟩ = .list := by
+  have hy := c19_ymd u h
+  apply own_file_listable Cal.c19 logID oname u sz h1 h2
+  · rw [hy]; exact (dateOfUnit_digits u).1
+  · rw [hy]
+    intro hm
+    have := (dateOfUnit_digits u).2 _ hm
+    revert this
+    decide
+
+/-- every name `GetLogFiles` returns can be passed to `Read`: it resolves to itself inside
+    `<home>/logs` (directory entry names are plain: no '/', not empty, not "." or ".."), so `Read`
+    serves exactly that entry of the logs directory -/
+theorem log_files_readable (logID oname home : Bytes) (ents : List DirEnt) (out : List (Bytes × Int))
+    (h : logFiles logID oname ents = some out)
+    (hplain : ∀ e ∈ ents, cSlash ∉ e.name ∧ e.name ≠ [] ∧ e.name ≠ [cDot] ∧ e.name ≠ [cDot, cDot])
+    (p : Bytes × Int) (hp : p ∈ out) (snap : Snapshot) (endpos length : Int) (hl : 0 < length) :
+    resolve home p.1 = some [p.1] ∧
+    read home p.1 snap endpos length =
+      match lookupEntry p.1 snap with
+      | none => .nilOpenErr
+      | some e => readEntry e endpos length := by
+  obtain ⟨e, he, hpe, _⟩ := logFilesLoop_sound logID oname ents 0 out h p hp
+  obtain ⟨a, b, c, d⟩ := hplain e he
+  have : p.1 = e.name := by rw [hpe]; rfl
+  rw [this]
+  exact ⟨resolve_plain home e.name a b c d, read_plain home e.name snap endpos length hl a b c d⟩
+
 /-! ## whole histories with an arbitrary directory -/
 
 /-- over ANY history of a new logger, whatever else lies in the directory: a file that does not
@@ -532,5 +652,16 @@ example : removedBy cal0 st0 [.proc (t0 + 86400000)] = [asc "whatap-boot-2024010
 example : unit (baseTime - 1) = 0 ∧ unit (baseTime - 86400000) = -1 ∧ unit (baseTime + 86399999) = 0 := by decide
 
 end Examples
+
+/-! refresh / GetLogFiles: the hypotheses are met -/
+example : asc "b" ∈ HMap.AL.keys [(asc "a", (1 : Int)), (asc "b", 2)] ∧ (HMap.AL.keys [(asc "a", (1 : Int)), (asc "b", 2)]).Nodup := by decide
+example : (asc "disk full ") ∈ HMap.AL.keys (run cal0 st0 [.log t0 .errorf [] (asc "disk full now")]).cache := by decide +kernel
+example : logFiles (asc "whatap") (asc "boot")
+    [⟨asc "other.log", false, 3⟩, ⟨asc "whatap-boot-2024031.log", false, 1⟩, ⟨asc "whatap-boot-20240310.log", false, 77⟩,
+     ⟨asc "whatap-boot-20240311.log", true, 4096⟩, ⟨asc "whatap-boot-20240312.log.gz", false, 9⟩, ⟨asc "whatap-hook.log", false, 2⟩] =
+    some [(asc "whatap-boot-20240310.log", 77), (asc "whatap-boot-20240312.log.gz", 9), (asc "whatap-hook.log", 2)] := by decide
+example : cDot ∉ asc "whatap" ∧ cDot ∉ asc "boot" := by decide
+example : logLevel (asc "WARN") = 2 ∧ logLevel (asc "Error") = 3 ∧ logLevel (asc "bogus") = 2 ∧ logLevel (asc "Info") = 1 ∧ logLevel [] = 2 := by decide
+example : logFilePath (asc "/opt/whatap") (asc "a.log") = [asc "opt", asc "whatap", asc "opt", asc "whatap", asc "logs", asc "a.log"] := by decide
 
 end C17
